@@ -189,6 +189,13 @@ func genValue(t *rapid.T) string {
 		}
 	}
 	s := sb.String()
+	if rapid.IntRange(0, 19).Draw(t, "longvalue") == 0 {
+		s = strings.Repeat(s+"x", rapid.IntRange(2, 40).Draw(t, "repeat"))
+		if len(s) > 2000 {
+			s = s[:2000]
+		}
+		return s
+	}
 	if len(s) > 60 {
 		s = s[:60]
 	}
@@ -197,6 +204,9 @@ func genValue(t *rapid.T) string {
 
 func genCase(t *rapid.T) Case {
 	n := rapid.IntRange(0, 8).Draw(t, "nkeys")
+	if rapid.IntRange(0, 29).Draw(t, "manykeys") == 0 {
+		n = rapid.IntRange(9, 40).Draw(t, "nkeysmany")
+	}
 	seen := map[string]bool{}
 	c := Case{}
 	for i := 0; i < n; i++ {
